@@ -7,6 +7,7 @@ package main
 
 import (
 	"fmt"
+	"time"
 
 	"verif/lib/dbh"
 	"verif/lib/kvseq"
@@ -64,8 +65,17 @@ func main() {
 			params := &kvseq.Params{Cfg: c.Cfg, ClientOps: c.Ops, MaxClient: c.MaxClient, MaxMaint: c.MaxMaint,
 				WithGC: c.GC, WithReopen: c.Reopen, Macro: c.Macro, Dedup: true, BaseDir: fmt.Sprintf("%s/s%d-c%d", base, sh.Index, ci)}
 			sub := vr.NewPartial()
+			// every configuration gets an equal share of what is left of the budget
+			share := time.Now().Add(r.Remaining() / time.Duration(len(cfgs)-ci))
+			expired := func() bool {
+				if time.Now().After(share) {
+					sub.TimedOut = true
+					return true
+				}
+				return r.Expired()
+			}
 			seqmc.Explore(seqmc.Config{New: func() seqmc.Instance { return kvseq.New(params) }, MaxDepth: c.Depth,
-				Shard: sh, Expired: r.Expired}, sub)
+				Shard: sh, Expired: expired, Iterative: c.Macro}, sub)
 			// tag violations with the configuration so replays know which one to use
 			for i := range sub.Violations {
 				sub.Violations[i].Replay = fmt.Sprintf(`{"Config":%q,"Path":%s}`, c.Name, sub.Violations[i].Replay)
